@@ -168,9 +168,14 @@ fn resolve_type(
     }
 
     // Unresolved type is in import path?
-    if let Some(import_path) = imports.iter().find(|import_path| {
-        &type_.name == *import_path || import_path.ends_with(&format!(".{}", type_.name))
-    }) {
+    // Note: if several imports match, take the exact one or else the smallest one (the set has no stable order)
+    if let Some(import_path) = imports
+        .iter()
+        .filter(|import_path| {
+            &type_.name == *import_path || import_path.ends_with(&format!(".{}", type_.name))
+        })
+        .min_by_key(|import_path| (&type_.name != *import_path, *import_path))
+    {
         if let Some(item_kind) = defined.get(import_path) {
             // Imported type is defined => set resolved item
             type_.kind = ast::TypeKind::ResolvedItem(import_path.to_owned(), item_kind.clone());
@@ -309,9 +314,11 @@ fn check_declared_parcelables(
             .fold(HashMap::new(), |mut map, declared_parcelable| {
                 let qualified_name = declared_parcelable.get_qualified_name();
 
+                // Note: if several imports conflict, take the first one in the file (the map has no stable order)
                 if let Some((_, conflicting_import)) = imports
                     .iter()
-                    .find(|(_, import)| import.name == declared_parcelable.name)
+                    .filter(|(_, import)| import.name == declared_parcelable.name)
+                    .min_by_key(|(_, import)| import.symbol_range.start.offset)
                 {
                     diagnostics.push(Diagnostic {
                         kind: DiagnosticKind::Error,
